@@ -200,18 +200,32 @@ def grid_accessors(chk):
            f"{len(seen)} undefined attribute read(s)", file=U.GRID, func="Grid", nontrivial=False)
     derived_state(chk)
     # getGlobalIndices: local index of axis i + start of axis i, stored at the dimension of axis i
+    from ..core import contains as _contains, same_expr as _same
     fn = chk.func(U.GRID, "Grid.getGlobalIndices")
-    t = src(fn).replace(" ", "").replace("\n", ";")
-    ok = "fori,toAddinenumerate(self._layout.starts):;result[self._layout.dims_order[i]]=indices[i]+toAdd" in t
-    chk.ob("C-sort", fn, "result[dims_order[i]] = indices[i] + starts[i]", ok,
-           "the local index along axis i plus the start of axis i is stored at the dimension carried by axis i" if ok else
-           "local-to-global conversion no longer pairs index, start and dimension of the same axis", file=U.GRID, func="Grid.getGlobalIndices")
+    ok = _contains(fn, "for i, toAdd in enumerate(self._layout.starts):\n    result[self._layout.dims_order[i]] = indices[i] + toAdd") or \
+        _contains(fn, "for i, (dim, toAdd) in enumerate(zip(self._layout.dims_order, self._layout.starts)):\n    result[dim] = indices[i] + toAdd")
+    bad = None
+    if not ok:
+        st_ = [n for n in ast.walk(fn) if isinstance(n, ast.Assign) and isinstance(n.targets[0], ast.Subscript) and src(n.targets[0].value) == "result"]
+        if len(st_) == 1 and isinstance(parent(st_[0]), ast.For) and _same(parent(st_[0]).iter, "enumerate(self._layout.starts)"):
+            key, val = st_[0].targets[0].slice, st_[0].value
+            if not _same(key, "self._layout.dims_order[i]"):
+                bad = f"the global index is stored at `{src(key)}`, not at the dimension carried by axis i (self._layout.dims_order[i])"
+            elif not _same(val, "indices[i] + toAdd"):
+                bad = f"the stored value `{src(val)}` is not the local index of axis i plus the start of axis i"
+    chk.pat("C-sort", fn, "result[dims_order[i]] = indices[i] + starts[i]", ok,
+            "the local index along axis i plus the start of axis i is stored at the dimension carried by axis i", bad,
+            file=U.GRID, func="Grid.getGlobalIndices")
     # getGlobalIdxVals = range(start, end) of the same axis
     fn = chk.func(U.GRID, "Grid.getGlobalIdxVals")
     r = [n for n in ast.walk(fn) if isinstance(n, ast.Return)]
-    ok = len(r) == 1 and src(r[0].value).replace(" ", "") == "range(self._layout.starts[i],self._layout.ends[i])"
-    chk.ob("C-sort", fn, "range(starts[i], ends[i])", ok, "global indices of the local block along axis i" if ok else
-           "global index range is not [starts[i], ends[i])", file=U.GRID, func="Grid.getGlobalIdxVals")
+    ok = len(r) == 1 and _same(r[0].value, "range(self._layout.starts[i], self._layout.ends[i])")
+    bad = None
+    if not ok and len(r) == 1 and isinstance(r[0].value, ast.Call) and src(r[0].value.func) == "range" and len(r[0].value.args) == 2 \
+            and not any(isinstance(a, ast.Starred) for a in r[0].value.args):
+        bad = f"`{src(r[0].value)}` is not the range [starts[i], ends[i]) of the axis asked for"
+    chk.pat("C-sort", fn, "range(starts[i], ends[i])", ok, "global indices of the local block along axis i", bad,
+            file=U.GRID, func="Grid.getGlobalIdxVals")
     return n_obs
 
 
